@@ -104,3 +104,12 @@ Proof.
   unfold rect_shade_corners. cbn [map].
   repeat constructor; unfold veq, vadd, rotz, south_ccw, compose, cw; cbn; repeat split; ring.
 Qed.
+
+(* a wall given by its own polygon turns with the building, corner by corner *)
+Theorem poly_wall_turns dev e s az tilt w poly :
+  Forall2 veq (poly_wall_corners (compose dev e) s az tilt w poly)
+              (map (rotz (cw e)) (poly_wall_corners dev s az tilt w poly)).
+Proof.
+  unfold poly_wall_corners. induction poly as [|p r IH]; cbn [map]; constructor; [|exact IH].
+  apply turn_building.
+Qed.
